@@ -34,6 +34,7 @@ type inv struct {
 	n          int
 	begin, end uint64 // end == 0: never ended in the log
 	res        string
+	seen       map[string]int // status of modules without the relevant callback, read when this callback began
 }
 
 type modLog struct {
@@ -64,6 +65,8 @@ type Verdict struct {
 	ShutdownErr                      string
 	LateStarts                       int // start callbacks still running when the API call that launched them returned
 	Restarts                         int // modules started more than once
+	RetriedInPass                    int // a module's start routine launched twice by one Start/ManageModules call
+	RetriedDetail                    string
 	WantedChecks, OrderChecks        int
 }
 
@@ -170,7 +173,14 @@ func judge(sc *Scenario, out *ChildOut) *Verdict {
 			}
 			k := fInt(e.F, "n")
 			if e.Kind == "begin" {
-				*lst = append(*lst, inv{n: k, begin: e.Seq})
+				iv := inv{n: k, begin: e.Seq}
+				if sm, ok := e.F["seen"].(map[string]any); ok {
+					iv.seen = map[string]int{}
+					for o := range sm {
+						iv.seen[o] = fInt(sm, o)
+					}
+				}
+				*lst = append(*lst, iv)
 				running[e.Op]++
 				if running[e.Op] > v.MaxConc[e.Op] {
 					v.MaxConc[e.Op] = running[e.Op]
@@ -236,6 +246,14 @@ func judge(sc *Scenario, out *ChildOut) *Verdict {
 		}
 		if len(ml.start) > 1 {
 			v.Restarts++
+		}
+		// the same Start/ManageModules call launched the start routine of one module twice
+		for i := 1; i < len(ml.start); i++ {
+			a, b := launcher(calls, ml.start[i-1].begin), launcher(calls, ml.start[i].begin)
+			if a != nil && a == b {
+				v.RetriedInPass++
+				v.RetriedDetail = fmt.Sprintf("%s: start %s launched again by the same %s call (seq %d): %s", n, n, a.op, a.call, fmtInvs(ml.start))
+			}
 		}
 		v.Stops += len(ml.stop)
 		for _, s := range ml.stop {
@@ -326,7 +344,95 @@ func judge(sc *Scenario, out *ChildOut) *Verdict {
 		}
 	}
 
+	// O1 for dependencies registered without a start function: portbase's own record
+	// (status online) is the only evidence that they "finished starting successfully"
+	for _, n := range names {
+		for _, s := range logs[n].start {
+			for _, d := range spec[n].Deps {
+				st, ok := s.seen[d]
+				if !ok || !spec[d].Start.Nil {
+					continue
+				}
+				v.OrderChecks++
+				if st != stOnline {
+					add("C01:start-order:dependency-not-online:nil-start",
+						"start routine of %s (#%d) began at seq %d although its dependency %s (registered without start function) was %s, not online",
+						n, s.n, s.begin, d, stName[st])
+				}
+			}
+		}
+	}
+
 	// ---- O2: stop only after every started dependent has completely stopped ----------
+	// "depends on it" is taken transitively: a module two levels up still runs on top of
+	// it. On a correct implementation the indirect demand follows from the direct one
+	// (an intermediate module can only be taken offline after the modules above it), so
+	// it asks nothing new; it decides the cases in which the intermediate module has no
+	// stop function and therefore no events.
+	indirect := map[string][]string{}
+	for _, n := range names {
+		seenUp := map[string]bool{}
+		var walk func(x string, depth int)
+		walk = func(x string, depth int) {
+			for _, r := range rev[x] {
+				if !seenUp[r] {
+					seenUp[r] = true
+					walk(r, depth+1)
+				}
+			}
+		}
+		walk(n, 0)
+		direct := map[string]bool{}
+		for _, r := range rev[n] {
+			direct[r] = true
+		}
+		for r := range seenUp {
+			if !direct[r] {
+				indirect[n] = append(indirect[n], r)
+			}
+		}
+		sort.Strings(indirect[n])
+	}
+	for _, n := range names {
+		for _, t := range logs[n].stop {
+			for _, r := range indirect[n] {
+				if spec[r].Start.Nil || spec[r].Stop.Nil {
+					continue
+				}
+				v.OrderChecks++
+				for _, ru := range runs[r] {
+					if ru.se < t.begin && t.begin < ru.te {
+						sig := "C01:stop-order:indirect-dependent-still-started"
+						if ru.tb < t.begin {
+							sig = "C01:stop-order:indirect-dependent-stop-still-running"
+						}
+						add(sig,
+							"stop routine of %s (#%d) began at seq %d although %s, which depends on it through other modules, was started (start ended ok at seq %d) and had not completely stopped (stop begin=%s end=%s)",
+							n, t.n, t.begin, r, ru.se, seqStr(ru.tb), seqStr(ru.te))
+					}
+				}
+			}
+			// direct dependents without stop or start function: decided by their status.
+			// stopping and online are the states of a started module that has not
+			// completely stopped ("starting" is left out: such a start may still fail).
+			for _, r := range rev[n] {
+				st, ok := t.seen[r]
+				if !ok {
+					continue
+				}
+				v.OrderChecks++
+				if st == stOnline || st == stStopping {
+					cls := "nil-stop"
+					if !spec[r].Stop.Nil {
+						cls = "nil-start"
+					}
+					add("C01:stop-order:dependent-not-offline:"+cls,
+						"stop routine of %s (#%d) began at seq %d although %s, which depends on it, was %s (it has no %s function, its status is the only record of it)",
+						n, t.n, t.begin, r, stName[st], strings.TrimPrefix(cls, "nil-"))
+				}
+			}
+		}
+	}
 	for _, n := range names {
 		for _, t := range logs[n].stop {
 			for _, r := range rev[n] {
@@ -389,6 +495,10 @@ func judge(sc *Scenario, out *ChildOut) *Verdict {
 			}
 			for _, d := range spec[n].Deps {
 				if spec[d].Prep.Nil {
+					// no prep events: portbase's status must at least say "prepared"
+					if st, ok := p.seen[d]; ok && st < stOffline {
+						add("C01:prep:before-dependency:nil-prep", "prep routine of %s began at seq %d although its dependency %s (registered without prep function) was %s, not yet prepared", n, p.begin, d, stName[st])
+					}
 					continue
 				}
 				okd := false
